@@ -43,13 +43,21 @@ theorem P_cont (f k x ts) : P (f + 1) (.cont k x) ts =
     | _ => some (x, ts)) := by
   rfl
 
+def stripKw : List Tok → List Tok
+  | .kw _ :: r => r
+  | ts => ts
+
+def kwOf : List Tok → Option Nat
+  | .kw k :: _ => some k
+  | _ => none
+
 theorem P_args (f ts) : P (f + 1) .args ts =
-    (match P f (.expr 0) (match ts with | .kw _ :: r => r | _ => ts) with
+    (match P f (.expr 0) (stripKw ts) with
     | some (e, .comma :: r) =>
       match P f .args r with
-      | some (rest, r') => some (.cons (match ts with | .kw k :: _ => some k | _ => none) e rest, r')
+      | some (rest, r') => some (.cons (kwOf ts) e rest, r')
       | none => none
-    | some (e, r) => some (.cons (match ts with | .kw k :: _ => some k | _ => none) e .nil, r)
+    | some (e, r) => some (.cons (kwOf ts) e .nil, r)
     | none => none) := by
   cases ts with
   | nil => rfl
